@@ -36,7 +36,12 @@ func pathStr(p cty.Path) string {
 	for _, s := range p {
 		switch st := s.(type) {
 		case cty.GetAttrStep:
-			b.WriteString("." + st.Name)
+			// injective: a name that holds the characters this rendering uses is quoted
+			if strings.ContainsAny(st.Name, ".[]\"") || st.Name == "" {
+				b.WriteString("." + fmt.Sprintf("%q", st.Name))
+			} else {
+				b.WriteString("." + st.Name)
+			}
 		case cty.IndexStep:
 			b.WriteString("[" + goStr(st.Key) + "]")
 		default:
@@ -901,6 +906,12 @@ func c19CollisionBases() []cty.Value {
 		cty.MapVal(m("k1", o(m("a", s("x"))), "k2", o(m("a", s("y"))))),
 		cty.TupleVal([]cty.Value{o(m("a", s("x"))), o(m("a", cty.True)), cty.ListVal([]cty.Value{s("p"), s("q")})}),
 		o(m("x", o(m("yz", cty.Zero)), "xy", o(m("z", cty.Zero)), "xyz", cty.Zero)),
+		// attribute names that read like a longer path through a sibling (any text rendering of paths)
+		o(m("a.b", s("x"), "a", o(m("b", s("y"))))),
+		o(m("servers[0]", s("x"), "servers", cty.ListVal([]cty.Value{s("y")}))),
+		o(m("env[\"TOKEN\"]", s("x"), "env", cty.MapVal(m("TOKEN", s("y"))))),
+		o(m("t[1]", cty.True, "t", cty.TupleVal([]cty.Value{s("p"), cty.False}), "t.1", cty.Zero)),
+		o(m("a", o(m("b.c", s("x"), "b", o(m("c", s("y"))))), "a.b", o(m("c", s("z"))))),
 	}
 }
 
